@@ -259,3 +259,51 @@ Corollary alt_bn128_order_prime' : prime alt_bn128_order. Proof. exact alt_bn128
 Corollary alt_bn128_field_prime' : prime alt_bn128_field. Proof. exact alt_bn128_field_prime. Qed.
 Corollary ed25519_ell_prime' : prime ed25519_ell.         Proof. exact ed25519_ell_prime. Qed.
 Corollary ed25519_p_prime' : prime ed25519_p.             Proof. exact ed25519_p_prime. Qed.
+
+(* ---- the certificate generator (untrusted; python3 with sympy), for regeneration:
+        python3 gen.py cert_name N   prints the Definition of a certificate for the prime N ----
+
+import sys
+from math import gcd
+from sympy import factorint, isprime
+TRIAL_LIMIT = 1 << 16
+HINTS = {  # factorisations of n-1 that sympy does not find quickly (checked below)
+ 2**252 + 27742317777372353535851937790883648493:
+   {2: 2, 3: 1, 11: 1, 198211423230930754013084525763697: 1, 276602624281642239937218680557139826668747: 1},
+ 65000549695646603732796438742359905742825358107623003571877145026864184071783:
+   {2: 1, 3: 2, 151: 1, 500393: 1, 1868033: 3, 5332323573263718838033: 1, 1374947842730272154058024133: 1}}
+def factor_nm1(n):
+    f = HINTS[n] if n in HINTS else factorint(n - 1)
+    prod = 1
+    for q, e in f.items():
+        assert isprime(q); prod *= q ** e
+    assert prod == n - 1
+    return f
+def witness(n, q):
+    a = 2
+    while not (pow(a, n - 1, n) == 1 and gcd(pow(a, (n - 1) // q, n) - 1, n) == 1):
+        a += 1
+    return a
+def build(n, out, done):
+    if n in done: return
+    if n < TRIAL_LIMIT:
+        done.add(n); out.append(('T', n)); return
+    f = factor_nm1(n); chosen = []; F = 1
+    for q in sorted(f, key=lambda q: q ** f[q], reverse=True):
+        if (F + 1) ** 2 > n: break
+        chosen.append(q); F *= q ** f[q]
+    assert (F + 1) ** 2 > n
+    for q in list(chosen):
+        if (F // q ** f[q] + 1) ** 2 > n:
+            chosen.remove(q); F //= q ** f[q]
+    chosen.sort()
+    for q in chosen: build(q, out, done)
+    done.add(n); out.append(('P', n, [(q, f[q], witness(n, q)) for q in chosen]))
+def coq_cert(name, n):
+    out = []; build(n, out, set()); out.reverse()
+    lines = ['  Trial %d' % s[1] if s[0] == 'T' else
+             '  Pock %d\n    [%s]' % (s[1], '; '.join('(%d, %d, %d)' % t for t in s[2])) for s in out]
+    return 'Definition %s : list cert := [\n%s\n].\n' % (name, ';\n'.join(lines))
+if __name__ == '__main__':
+    print(coq_cert(sys.argv[1], int(sys.argv[2])))
+*)
